@@ -204,7 +204,16 @@ def make_state(cls: str, dims: List[int], lvl: str, rng, label=None):
                 t[tuple(sl)] = 0
         v = t.reshape(-1)
         v = v / np.linalg.norm(v)
-    elif cls in ("mixed", "degenerate", "nearpure", "mixedlow"):
+    elif cls == "ghz":
+        # sum_k c_k |k mod d_1, ..., k mod d_r>: every reduced state is DIAGONAL (no coherences between levels), complex c_k.
+        # Stresses code that looks at one column / the off-diagonals of a reduced density matrix.
+        t = np.zeros(dims, dtype=complex)
+        K = max(dims)
+        for k in range(K):
+            t[tuple(k % d for d in dims)] += (rng.uniform(0.4, 1.0)) * np.exp(2j * np.pi * rng.uniform())
+        v = t.reshape(-1)
+        v = v / np.linalg.norm(v)
+    elif cls in ("mixed", "degenerate", "nearpure", "mixedlow", "classical"):
         v = None
     else:
         raise ValueError(cls)
@@ -228,6 +237,13 @@ def make_state(cls: str, dims: List[int], lvl: str, rng, label=None):
         A = rng.normal(size=(D, D)) + 1j * rng.normal(size=(D, D))
         A[~k, :] = 0
         rho = A @ A.conj().T
+    elif cls == "classical":
+        # classical mixture of correlated basis states: a diagonal density matrix
+        p = np.zeros(D)
+        K = max(dims)
+        for k in range(K):
+            p[int(np.ravel_multi_index([k % d for d in dims], dims))] += rng.uniform(0.3, 1.0)
+        rho = np.diag(p).astype(complex)
     elif cls == "degenerate":
         U = np.linalg.qr(rng.normal(size=(D, D)) + 1j * rng.normal(size=(D, D)))[0]
         ev = np.zeros(D)
